@@ -57,6 +57,9 @@ func build(ds []directive, pos []int, semi bool) string {
 	return b.String()
 }
 
+// lenient: a rejection is counted, not judged (families whose well-formedness the documentation does not settle).
+var lenient bool
+
 func checkText(r *ev.Run, text string) {
 	in := map[string]any{"Text": text}
 	sp, err := ebnfref.ParseSpec(text)
@@ -114,6 +117,10 @@ func checkText(r *ev.Run, text string) {
 	if !res.OK() {
 		if repeated {
 			r.Add("specs_with_a_handle_in_two_levels_rejected", 1)
+			return
+		}
+		if lenient {
+			r.Add("specs_rejected_not_judged", 1)
 			return
 		}
 		r.Report("", fmt.Sprintf("a well-formed specification is rejected: %s\n%s", res.Err, text), in)
@@ -600,6 +607,41 @@ func main() {
 				}
 			}
 		}
+	}
+	// strings that denote the value of a named token, written differently (`PLUS = "\+"` next to the handle `"+"`),
+	// token names and such strings side by side: the terminal recorded for a handle is the one that was written. Every
+	// list of one and two handles, the directive before and after the declarations. (Whether two terminals may denote
+	// one text is C07's question: a rejection is not judged here.)
+	{
+		hp := []string{`"+"`, `"*"`, "PLUS", "TIMES", "TK", `"-"`}
+		decls := "PLUS = \"\\+\" ;\nTIMES = \"\\*\" ;\nTK = \"t\" ;\n"
+		rules := "start = e ;\ne = e PLUS e | e TIMES e | e \"+\" e | e \"*\" e | e \"-\" e | TK ;\n"
+		lenient = true
+		for i, h1 := range hp {
+			for j := -1; j < len(hp); j++ {
+				if j == i {
+					continue
+				}
+				hs := h1
+				if j >= 0 {
+					hs += " " + hp[j]
+				}
+				for ai, as := range assocs {
+					if r.Quick() && (i+j+ai)%2 != 0 {
+						continue
+					}
+					dir := as + " " + hs + " ;\n"
+					for _, text := range []string{"grammar g ;\n" + decls + dir + rules, "grammar g ;\n" + dir + decls + rules, "grammar g ;\n" + decls + rules + dir} {
+						count++
+						if r.MineIdx(count) && !r.Expired() {
+							r.Add("specs_strings_denoting_token_values", 1)
+							checkText(r, text)
+						}
+					}
+				}
+			}
+		}
+		lenient = false
 	}
 	// long directive lists: n levels (one string terminal each, a rule handle every fifth), associativities cycling, in the
 	// five arrangements: all first, all last, alternating with the other declarations, two per line, without semicolons
